@@ -190,16 +190,25 @@ class World:
         return reg
 
     # ------------------------------------------------------------------------------ the oracle
-    def verdicts(self, start, ops, probes):
-        """[(clause, route, name, item, got, want)] for every probe that fails after the history `ops`;
-        routes: the registry itself, its JSON reload, its pickle reload"""
+    ROUTES = ("direct", "json", "pickle", "deepcopy", "json+edit", "pickle+edit", "deepcopy+edit")
+
+    @staticmethod
+    def tail(route, base):
+        """what a route appends to the history before the probes are read: a round trip, possibly followed
+        by an edit of the focus name's base symbol (a stale or mis-flagged entry shows at the next edit)"""
+        if route == "direct":
+            return []
+        how = route.split("+")[0]
+        return [("J", how)] + ([("M", base, 3.25)] if route.endswith("+edit") else [])
+
+    def verdicts(self, start, ops, probes, base):
+        """[(clause, route, name, item, got, want)] for every probe that fails after the history `ops`
+        followed by the route's tail"""
         bad = []
-        for route in ("direct", "json", "pickle", "deepcopy"):
-            reg, user = self.run(start, ops)
-            fresh = self.fresh(start, ops)
-            if route != "direct":
-                reg = self.apply(reg, user, ("J", route))
-                fresh = self.apply(fresh, {}, ("J", route))
+        for route in self.ROUTES:
+            full = list(ops) + self.tail(route, base)
+            reg, user = self.run(start, full)
+            fresh = self.fresh(start, full)
             for name, item in probes:
                 got = self.read(reg, name, item)
                 sym = name if item else self.symbol_of(name)
@@ -255,15 +264,15 @@ def gen_history(rng, W, pools, length):
     return start, ops, probes
 
 
-def shrink(W, start, ops, probe, clause, route):
+def shrink(W, start, ops, probe, clause, route, base):
     def still(ops_):
         try:
-            return any(b[0] == clause and b[1] == route for b in W.verdicts(start, ops_, [probe]))
+            return any(b[0] == clause and b[1] == route for b in W.verdicts(start, ops_, [probe], base))
         except Exception:  # noqa: BLE001
             return False
 
     i = 0
-    while i < len(ops) and len(ops) > 1:
+    while i < len(ops) and len(ops) > 0:
         cand = ops[:i] + ops[i + 1:]
         if still(cand):
             ops = cand
@@ -301,21 +310,21 @@ def run(chk, model, tier, rng, names, reader):
             chk.count("history-op:" + o[0])
         # ---- direct oracle
         try:
-            bad = W.verdicts(start, ops, probes)
+            base = probes[2][0]
+            bad = W.verdicts(start, ops, probes, base)
         except Exception as e:  # noqa: BLE001
             chk.disagree("history-run", f"{start} {[wire(o) for o in ops]}: {e!r}"[:400])
             continue
         for clause, route, name, item, got, want in bad:
-            small = shrink(W, start, list(ops), (name, item), clause, route)
+            small = shrink(W, start, list(ops), (name, item), clause, route, base)
             via = ("getitem" if item else ("alias" if W.symbol_of(name) != name else "string")) + ("" if route == "direct" else "+" + route)
             key = f"history|{clause}|{via}|{kind_of_history(small)}"
             if key in reported:
                 continue
             reported.add(key)
-            vb = [b for b in W.verdicts(start, small, [(name, item)]) if b[0] == clause and b[1] == route]
+            vb = [b for b in W.verdicts(start, small, [(name, item)], base) if b[0] == clause and b[1] == route]
             got, want = (vb[0][4], vb[0][5]) if vb else (got, want)
-            tail = "" if route == "direct" else reload_code(route) + reload_code(route, "fresh")
-            body = history_code(start, small) + tail
+            body = history_code(start, small + W.tail(route, base))
             if clause == "table-symbol-lost":
                 body += f"got = rd(reg, {name!r}, {item!r})\nassert got == {want!r}, ('the table symbol is not what the name denotes', got, {want!r})\n"
             else:
